@@ -13,6 +13,7 @@ import (
 	"encoding/json"
 	"fmt"
 	"math/rand"
+	"net"
 	"strings"
 	"testing"
 
@@ -33,6 +34,8 @@ type vObfCase struct {
 	Ty           string `json:"ty"`
 	URL          string `json:"url"`
 	Accept       bool   `json:"accept"`
+	Shape        string `json:"mshape"` // AnyPack: the packed message sets all / some / none of its optional fields
+	Dst          string `json:"dst"`   // AnyPack: the destination is freshly allocated / still holds an earlier registration's parameters
 }
 
 func vKeyPair(i int) (priv [32]byte, pub []byte) {
@@ -208,25 +211,59 @@ func TestVerifCodecObfuscators(t *testing.T) {
 	o.Emit(map[string]any{"kind": "observation", "what": "zero-length tag", "result": empty})
 
 	// ---- URL-less packing of transport parameters
-	mk := func(ty string, i int) (proto.Message, proto.Message, proto.Message) {
+	// full: every optional field set; partial: some; empty: none.  used(): a destination of the same type that still holds the
+	// (fully set) parameters of an earlier registration
+	mk := func(ty, shape string, i int) (proto.Message, proto.Message, proto.Message) {
 		switch ty {
 		case "generic":
-			return &pb.GenericTransportParams{RandomizeDstPort: proto.Bool(i%2 == 0)}, &pb.GenericTransportParams{}, &pb.PrefixTransportParams{}
+			m := &pb.GenericTransportParams{}
+			if shape == "full" {
+				m.RandomizeDstPort = proto.Bool(i%2 == 0)
+			}
+			return m, &pb.GenericTransportParams{}, &pb.PrefixTransportParams{}
 		case "prefix":
-			return &pb.PrefixTransportParams{PrefixId: proto.Int32(int32(i%7 - 2)), Prefix: []byte(fmt.Sprintf("GET /%d", i)),
-				CustomFlushPolicy: proto.Int32(int32(i % 3)), RandomizeDstPort: proto.Bool(i%3 == 0)}, &pb.PrefixTransportParams{}, &pb.DTLSTransportParams{}
+			m := &pb.PrefixTransportParams{}
+			if shape != "empty" {
+				m.PrefixId = proto.Int32(int32(i%7 - 2))
+			}
+			if shape == "full" {
+				m.Prefix, m.CustomFlushPolicy, m.RandomizeDstPort = []byte(fmt.Sprintf("GET /%d", i)), proto.Int32(int32(i%3)), proto.Bool(i%3 == 0)
+			}
+			return m, &pb.PrefixTransportParams{}, &pb.DTLSTransportParams{}
 		default:
-			ip := []byte{10, byte(i), 2, 3}
+			m := &pb.DTLSTransportParams{}
 			port := uint32(1024 + i)
-			return &pb.DTLSTransportParams{SrcAddr4: &pb.Addr{IP: ip, Port: &port}, RandomizeDstPort: proto.Bool(i%2 == 1),
-				Unordered: proto.Bool(i%5 == 0)}, &pb.DTLSTransportParams{}, &pb.GenericTransportParams{}
+			if shape != "empty" {
+				m.SrcAddr4 = &pb.Addr{IP: []byte{10, byte(i), 2, 3}}
+			}
+			if shape == "full" {
+				m.SrcAddr4.Port = &port
+				m.SrcAddr6 = &pb.Addr{IP: net.ParseIP("2001:db8::7"), Port: &port}
+				m.RandomizeDstPort, m.Unordered = proto.Bool(i%2 == 1), proto.Bool(i%5 == 0)
+			}
+			return m, &pb.DTLSTransportParams{}, &pb.GenericTransportParams{}
+		}
+	}
+	used := func(ty string) proto.Message {
+		p := uint32(4444)
+		switch ty {
+		case "generic":
+			return &pb.GenericTransportParams{RandomizeDstPort: proto.Bool(true)}
+		case "prefix":
+			return &pb.PrefixTransportParams{PrefixId: proto.Int32(9), Prefix: []byte("SSH-2.0-earlier"), CustomFlushPolicy: proto.Int32(2), RandomizeDstPort: proto.Bool(true)}
+		default:
+			return &pb.DTLSTransportParams{SrcAddr4: &pb.Addr{IP: []byte{192, 0, 2, 9}, Port: &p}, SrcAddr6: &pb.Addr{IP: net.ParseIP("2001:db8::9"), Port: &p},
+				RandomizeDstPort: proto.Bool(true), Unordered: proto.Bool(true)}
 		}
 	}
 	for _, c := range anyCases {
 		for i := 0; i < 25; i++ {
 			n++
-			classes["anypb:"+c.Ty+":"+c.URL] = true
-			msg, dst, otherDst := mk(c.Ty, i)
+			classes["anypb:"+c.Ty+":"+c.URL+":"+c.Shape+":"+c.Dst] = true
+			msg, dst, otherDst := mk(c.Ty, c.Shape, i)
+			if c.Dst == "used" {
+				dst = used(c.Ty)
+			}
 			func() {
 				defer func() {
 					if x := recover(); x != nil {
@@ -262,7 +299,7 @@ func TestVerifCodecObfuscators(t *testing.T) {
 					return
 				}
 				if err == nil && !proto.Equal(dst, msg) {
-					bad("anypb:"+c.Ty+":"+c.URL+":roundtrip", fmt.Sprintf("unpacked %v, packed %v", dst, msg), c, nil)
+					bad("anypb:"+c.Ty+":"+c.URL+":roundtrip:"+c.Shape+"-into-"+c.Dst, fmt.Sprintf("unpacked %v, packed %v", dst, msg), c, nil)
 				}
 			}()
 		}
